@@ -41,11 +41,49 @@ STATE_MEASURE = ('distinct (section kind, attribute, value class, outcome) '
                  'tuples and (perturbed field class, == result) pairs')
 
 
+FOREIGN_OUT_OF_SPEC = (
+    b'#diffx: encoding=utf-8, version=1.0\n'
+    b'#.preamble: length=2, line_endings=unix, mimetype=text/html\nx\n'
+    b'#.change:\n#..preamble: length=2, mimetype=x\ny\n#..file:\n'
+    b'#...meta: format=json, length=9\n{"k": 1}\n'
+    b'#...diff: length=2, type=x\nz\n')
+
+
 def gen_assign(rng):
     tn = 'T1'
     ops = domgen.gen_tree_ops(rng, tn, max_changes=2, max_files=2,
                               p_set=0.3, full=True)
     n = rng.randint(10, 40)
+
+    if rng.chance(0.15):
+        # another tree, loaded from a foreign file whose option values lie
+        # outside the documented choices, then assigned valid values
+        ops.append({'op': 'parse', 'tree': 'T0',
+                    'hex': FOREIGN_OUT_OF_SPEC.hex()})
+
+        for path, attr in (([], 'preamble_mimetype'),
+                           ([0], 'preamble_mimetype'),
+                           ([0, 0], 'diff_type'),
+                           ([], 'preamble_line_endings')):
+            if rng.chance(0.7):
+                ops.append({'op': 'set', 'tree': 'T0', 'path': path,
+                            'attr': attr,
+                            'value': domgen.valid_value(
+                                rng, domgen.node_kind(path), attr)})
+
+    if rng.chance(0.15):
+        # a file section copied within the tree, nested metadata of the
+        # copy edited in place
+        ops.append({'op': 'set', 'tree': tn, 'path': [0, 0], 'attr': 'meta',
+                    'value': {'path': {'old': 'a', 'new': 'b'},
+                              'stats': {'n': [1, 2]}}})
+        ops.append({'op': 'clone_file', 'tree': tn, 'from': tn,
+                    'path': [0, 0], 'change': rng.below(2),
+                    'how': rng.choice(['deepcopy', 'pickle'])})
+        ops.append({'op': 'meta_nested', 'tree': tn,
+                    'path': [ops[-1]['change'], -1],
+                    'prefer': rng.choice(['path', 'stats']), 'key': 'zz',
+                    'value': 7})
 
     for _ in range(n):
         k = rng.below(20)
@@ -164,6 +202,19 @@ def gen_equality(rng):
         twin = reordered(rng, twin)
 
     ops = base + twin
+
+    if rng.chance(0.04):
+        # metadata with thousands of keys, filled in the opposite order in
+        # the twin
+        wide = {'k%05d' % i: i for i in range(rng.choice([2049, 4100]))}
+        path = rng.choice([[], [0]])
+        ops.append({'op': 'set', 'tree': 'T1', 'path': path, 'attr': 'meta',
+                    'value': wide})
+        ops.append({'op': 'set', 'tree': 'T2', 'path': path, 'attr': 'meta',
+                    'value': wide})
+        ops.append({'op': 'tweak', 'tree': 'T2', 'path': path,
+                    'attr': 'meta', 'how': 'reverse_keys'})
+        ops.append({'op': 'eq', 'a': 'T1', 'b': 'T2'})
     ops.append({'op': 'eq', 'a': 'T1', 'b': 'T2'})
     ops.append({'op': 'ne', 'a': 'T1', 'b': 'T2'})
 
